@@ -121,6 +121,19 @@ where
         signal_params: SignalParams,
         node_config: Arc<RaftNodeConfig>,
     ) -> Self {
+        // Persist term / vote as soon as they change, not only on graceful drop: a crash
+        // must never forget a granted vote or an adopted term.
+        let mut role = role;
+        {
+            let raft_log = storage.raft_log.clone();
+            role.state_mut().shared_state_mut().set_hard_state_persister(Arc::new(
+                move |hard_state| {
+                    if let Err(e) = raft_log.save_hard_state(hard_state) {
+                        error!(?e, "Failed to persist hard state");
+                    }
+                },
+            ));
+        }
         let ctx = Self::build_context(
             node_id,
             storage,
